@@ -90,7 +90,7 @@ class PState:
 class Explorer:
     def __init__(self, prog, inline=None, summaries=None, max_depth=4, max_paths=200000,
                  effects=None, distinct_roots=True, loop_bound=2, on_unknown_call=None,
-                 nondet_fields=(), field_values=None):
+                 nondet_fields=(), field_values=None, merge=False):
         self.prog = prog
         self.inline = inline or (lambda name, fn: False)
         self.summaries = summaries or {}
@@ -105,6 +105,64 @@ class Explorer:
         # default value of a (record, field) when the store has no entry for
         # the location read (lets a rule model "every such field holds X")
         self.field_values = dict(field_values or {})
+        self._ro_cache = {}
+        # merge mode: path states reaching the same block with the same store
+        # are explored once; events go to self.event_log instead of per-path
+        # traces (for rules that need the set of effects, not their order)
+        self.merge = merge
+        self.event_log = []
+        self._span = {}
+
+    # ---- constant globals -------------------------------------------------
+    def global_load(self, root, path):
+        """Value of a never-written global (or part of it) from its initialiser."""
+        _, gfile, name = root
+        g = self.prog.globals.get((gfile, name))
+        if g is None or "init" not in g:
+            return None
+        if not g.get("const") and self.effects is not None:
+            if name not in self._ro_cache:
+                self._ro_cache[name] = not self.effects.writers_of_global(name)
+            if not self._ro_cache[name]:
+                return None
+        elif not g.get("const"):
+            return None
+        v = g["init"]
+        for comp in path:
+            if v is None:
+                return INT(0)
+            if isinstance(comp, tuple):
+                if v.get("k") != "rec":
+                    return None
+                v = v["fields"].get(comp[1])
+            else:
+                if v.get("k") == "str":
+                    return None
+                if v.get("k") != "arr":
+                    return None
+                if comp < 0 or comp >= v.get("n", 0):
+                    return None
+                v = v["elems"].get(str(comp), v.get("filler"))
+        return self._init_to_val(v, gfile)
+
+    def _init_to_val(self, v, gfile):
+        if v is None:
+            return INT(0)
+        k = v.get("k")
+        if k == "int":
+            return INT(v["v"])
+        if k == "null":
+            return NULL
+        if k == "str":
+            return ("str", v["s"])
+        if k == "fn":
+            return ("fn", v["name"])
+        if k == "addr":
+            tg = self.prog.glob(v["name"], gfile, required=False) or self.prog.glob(v["name"], required=False)
+            if tg is None:
+                return TOP
+            return PTR(("G", tg["file"], tg["name"]), (0,) if tg.get("init", {}).get("k") == "arr" else ())
+        return TOP
 
     # ---- store helpers -------------------------------------------------
     @staticmethod
@@ -130,22 +188,36 @@ class Explorer:
         outs = []
         init = PState(f.entry, 0, store, {}, tuple(events), {}, ())
         work = [init]
+        seen = set() if self.merge else None
         while work:
             st = work.pop()
-            self._run_path(f, fid, st, work, outs, depth)
+            self._run_path(f, fid, st, work, outs, depth, seen)
             if self.paths > self.max_paths:
                 raise AnalysisBroken("%s: path explosion (> %d paths)" % (f.loc(), self.max_paths))
+        if self.merge:
+            uniq = {}
+            for o in outs:
+                uniq.setdefault((o.kind, o.ret, frozenset(o.store.items())), o)
+            outs = list(uniq.values())
         # drop the frame's locals from the outcome stores
         for o in outs:
             for k in [k for k in o.store if isinstance(k[0], tuple) and k[0][:2] == ("loc", fid)]:
                 del o.store[k]
         return outs
 
-    def _run_path(self, f, fid, st, work, outs, depth):
+    def _run_path(self, f, fid, st, work, outs, depth, seen=None):
         while True:
             b = st.b
             blk = f.blocks[b]
             elems = f.elems(b)
+            if st.idx == 0 and seen is not None:
+                live = self._span_nodes(f)
+                key = (b, frozenset(st.store.items()),
+                       frozenset((k_, v_) for k_, v_ in st.vals.items() if k_ in live),
+                       st.visits.get(b, 0) >= self.loop_bound)
+                if key in seen:
+                    return
+                seen.add(key)
             if st.idx == 0:
                 st.visits[b] = st.visits.get(b, 0) + 1
                 if st.visits[b] > self.loop_bound:
@@ -261,6 +333,25 @@ class Explorer:
             s, refine, dec = nxt[0]
             self._take(f, st, s, refine, dec)
 
+    def _span_nodes(self, f):
+        """Nodes whose value may be consulted in a later block: members of
+        expressions containing &&, || or ?: (the only expressions clang's CFG
+        splits across blocks)."""
+        if f.key not in self._span:
+            live = set()
+            for i, n in enumerate(f.nodes):
+                if (n["k"] == "BinaryOperator" and n.get("op") in ("&&", "||")) or \
+                        n["k"] == "ConditionalOperator":
+                    top = i
+                    for a in f.ancestors(i):
+                        if "t" in f.nodes[a] or f.nodes[a]["k"] in ("ReturnStmt", "DeclStmt"):
+                            top = a
+                        else:
+                            break
+                    live.update(f.descendants(top))
+            self._span[f.key] = live
+        return self._span[f.key]
+
     def _take(self, f, st, s, refine, dec):
         if refine is not None:
             cond, want, term = refine
@@ -293,7 +384,7 @@ class Explorer:
             if dk in ("local", "param", "slocal"):
                 return (("loc", fid, n["name"]), ())
             if dk == "global":
-                return (("G", n["name"]), ())
+                return (("G", n.get("gfile"), n["name"]), ())
             return None
         if k == "MemberExpr":
             # members of anonymous structs/unions are flattened into the
@@ -352,6 +443,8 @@ class Explorer:
             return INT(n["v"])
         if n.get("null"):
             return NULL
+        if k == "StringLiteral":
+            return ("str", n["s"])
         c = n["c"]
         if k in ("ParenExpr", "ConstantExpr"):
             return self.V(f, fid, c[0], st)
@@ -362,11 +455,19 @@ class Explorer:
                 if loc is not None and loc[1] and isinstance(loc[1][-1], tuple) and \
                         loc[1][-1] in self.nondet_fields:
                     return TOP
-                if loc is not None and loc not in st.store and loc[1] and \
+                if loc is not None and st.store.get(loc, TOP) == TOP and loc[1] and \
                         isinstance(loc[1][-1], tuple) and loc[1][-1] in self.field_values:
                     return self.field_values[loc[1][-1]]
+                if loc is not None and loc not in st.store and isinstance(loc[0], tuple) \
+                        and loc[0][0] == "G":
+                    gv = self.global_load(loc[0], loc[1])
+                    if gv is not None:
+                        return gv
                 return self.load(st.store, loc)
             if ck == "ArrayToPointerDecay":
+                sn = f.nodes[f.strip(c[0])]
+                if sn["k"] == "StringLiteral":
+                    return ("str", sn["s"])
                 loc = self.L(f, fid, c[0], st)
                 return PTR(loc[0], loc[1] + (0,)) if loc is not None else TOP
             if ck == "FunctionToPointerDecay":
@@ -398,7 +499,13 @@ class Explorer:
             if op in ("++", "--"):
                 loc = self.L(f, fid, c[0], st)
                 old = self.load(st.store, loc)
-                new = INT(old[1] + (1 if op == "++" else -1)) if old[0] == "int" else TOP
+                d_ = 1 if op == "++" else -1
+                if old[0] == "int":
+                    new = INT(old[1] + d_)
+                elif old[0] == "ptr" and old[2] and isinstance(old[2][-1], int):
+                    new = PTR(old[1], old[2][:-1] + (old[2][-1] + d_,))
+                else:
+                    new = TOP
                 if loc is not None:
                     self._store(f, st, loc, new, i)
                 return old if n.get("postfix") else new
@@ -450,6 +557,8 @@ class Explorer:
                     if eq is not None:
                         return INT(1 if (eq == (op == "==")) else 0)
                 return TOP
+            if op in ("+", "-") and a[0] == "ptr" and b[0] == "int" and a[2] and isinstance(a[2][-1], int):
+                return PTR(a[1], a[2][:-1] + (a[2][-1] + (b[1] if op == "+" else -b[1]),))
             if op in ARITH and a[0] == "int" and b[0] == "int":
                 r = ARITH[op](a[1], b[1])
                 return TOP if r is None else INT(r)
@@ -516,7 +625,10 @@ class Explorer:
         st.store[loc] = val
         root = loc[0]
         if not (isinstance(root, tuple) and root[0] == "loc"):
-            st.events = st.events + (("store", loc, val, f.key, node),)
+            if self.merge:
+                self.event_log.append(("store", loc, val, f.key, node))
+            else:
+                st.events = st.events + (("store", loc, val, f.key, node),)
 
     # ---- calls -------------------------------------------------------------------
     def _call(self, f, fid, e, st, depth):
@@ -529,6 +641,8 @@ class Explorer:
             if fv[0] == "fn":
                 cal = fv[1]
         ev = ("call", cal, tuple(args), f.key, e)
+        if self.merge:
+            self.event_log.append(ev)
         if cal is not None and cal in self.summaries:
             r = self.summaries[cal](self, st, args, f, e)
             if r is not None:
@@ -536,7 +650,7 @@ class Explorer:
                 for ret, upd in r:
                     s2 = dict(st.store)
                     s2.update(upd)
-                    out.append((ret, s2, st.events + (ev,)))
+                    out.append((ret, s2, st.events if self.merge else st.events + (ev,)))
                 return out
         d = self.prog.resolve(f, cal) if cal else None
         if d is None and cal in self.prog.noreturn_names:
@@ -544,14 +658,15 @@ class Explorer:
         if d is not None and (d.noreturn or d.declared_noreturn):
             return None
         if d is not None and depth < self.max_depth and self.inline(cal, d):
-            outs = self.run(d, args, st.store, st.events + (("enter", cal, tuple(args), f.key, e),),
+            outs = self.run(d, args, st.store,
+                            st.events if self.merge else st.events + (("enter", cal, tuple(args), f.key, e),),
                             depth + 1)
             res = []
             for o in outs:
                 if o.kind == "die":
                     continue
                 res.append((o.ret if o.ret is not None else TOP, o.store,
-                            o.events + (("leave", cal, o.ret),)))
+                            o.events if self.merge else o.events + (("leave", cal, o.ret),)))
             return res
         # unknown / not inlined: havoc what it may write
         store = st.store
@@ -570,7 +685,7 @@ class Explorer:
                     store[k] = TOP
             globs = {t[1] for t in mw if t[0] == "global"}
             for k in list(store):
-                if isinstance(k[0], tuple) and k[0][0] == "G" and k[0][1] in globs:
+                if isinstance(k[0], tuple) and k[0][0] == "G" and k[0][2] in globs:
                     store[k] = TOP
         for a in args:
             if a[0] == "ptr":
@@ -585,5 +700,5 @@ class Explorer:
         if self.on_unknown_call:
             r = self.on_unknown_call(cal, args, f, e)
             if r is not None:
-                return [(rv, store, st.events + (ev,)) for rv in r]
-        return [(TOP, store, st.events + (ev,))]
+                return [(rv, store, st.events if self.merge else st.events + (ev,)) for rv in r]
+        return [(TOP, store, st.events if self.merge else st.events + (ev,))]
